@@ -983,9 +983,9 @@ void caseWrapSweep(vrt::Case& c)
 int main(int argc, char** argv)
 {
   vector<vrt::Group> groups = {
-    { "transform", 21600, 1080000, caseTransform, 600, false },
-    { "wrapper", 16000, 800000, caseWrapper, 600, false },
-    { "wrap-sweep", 4800, 160000, caseWrapSweep, 600, false },
+    { "transform", 21600, 1080000, caseTransform, 1800, false },
+    { "wrapper", 16000, 800000, caseWrapper, 1800, false },
+    { "wrap-sweep", 4800, 160000, caseWrapSweep, 1800, false },
   };
   vrt::Meta meta;
   meta.rule = "transform: one transform object per case (index mod 9: 3x interval-hyperbolic, 3x interval-tangent, half-line positive, half-line negative, mixed), bounds over "
